@@ -4,5 +4,5 @@ CONSTANTS
   MaxBytes = 4
   MaxMsgs = 4
   Sizes = {1, 2}
-  Kinds = {"join765", "join763", "switch765", "playq763", "fallback765"}
+  Kinds = {"join765", "join763", "switch765", "playq763", "fallback765", "flushfail765"}
 INVARIANTS InOrder NoLoss Queued Bounded OverflowOnlyWhenFull
